@@ -35,6 +35,7 @@ CONSTANTS
     SampleRem,
     NegIgnored,  \* sensitivity: a negated match does not exclude (WRONG rule)
     FallbackAlways, \* sensitivity: plain-name lookup merged in always (WRONG)
+    DropPortRevoked,\* sensitivity: the fallback forgets [host]:port revocations (pre-repair rule)
     AnyFromSuffices,\* sensitivity: one matching from= is enough (WRONG)
     CaseFold     \* TRUE = OpenSSH (folds case); FALSE = what asyncssh does
 
@@ -208,13 +209,16 @@ Lookup(file, q, wp) ==
 Cat(r1, r2) == [host |-> r1.host \o r2.host, ca |-> r1.ca \o r2.ca, rev |-> r1.rev \o r2.rev]
 
 (* SSHKnownHosts.match: [host]:port first, plain name only if that found no *)
-(* trusted entry                                                            *)
+(* trusted entry; what was revoked for [host]:port stays revoked            *)
+Fallback(file, q, r) ==
+    LET pl == Lookup(file, q, FALSE)
+    IN  IF DropPortRevoked THEN pl ELSE [pl EXCEPT !.rev = pl.rev \o r.rev]
 KHResult(file, q) ==
     IF q[3] = 0 THEN Lookup(file, q, FALSE)
     ELSE LET r == Lookup(file, q, TRUE)
          IN  IF FallbackAlways THEN Cat(r, Lookup(file, q, FALSE))
              ELSE IF r.host # <<>> \/ r.ca # <<>> THEN r
-             ELSE Lookup(file, q, FALSE)
+             ELSE Fallback(file, q, r)
 
 Purge(file) == SelectSeq(file, LAMBDA ln : Keys[ln[3]] # "D")
 
@@ -437,7 +441,16 @@ FallbackRule ==           \* [host]:port first; plain name only if nothing trust
         LET q == QMenu[c.q]  r == KHResult(c.file, q)  rp == Lookup(c.file, q, TRUE)
         IN  IF q[3] = 0 THEN r = Lookup(c.file, q, FALSE)
             ELSE IF rp.host # <<>> \/ rp.ca # <<>> THEN r = rp
-            ELSE r = Lookup(c.file, q, FALSE)
+            ELSE /\ r.host = Lookup(c.file, q, FALSE).host
+                 /\ r.ca = Lookup(c.file, q, FALSE).ca
+
+RevocationKept ==         \* a key revoked for [host]:port or for the plain name is reported revoked
+    Mode = "kh" =>
+        LET q == QMenu[c.q]  r == KHResult(c.file, q)
+            Set(s) == {s[i] : i \in 1..Len(s)}
+        IN  /\ q[3] # 0 => Set(Lookup(c.file, q, TRUE).rev) \subseteq Set(r.rev)
+            /\ (q[3] = 0 \/ (Lookup(c.file, q, TRUE).host = <<>> /\ Lookup(c.file, q, TRUE).ca = <<>>))
+                  => Set(Lookup(c.file, q, FALSE).rev) \subseteq Set(r.rev)
 
 MarkerPartition ==        \* every selected line lands in exactly the list its marker names
     Mode = "kh" =>
